@@ -647,6 +647,10 @@ func (g *Gen) PlanFor(t reflect.Type, depth int) *Plan {
 	return nil
 }
 
+// Args are the (variadic-flattened) arguments of the prepared call; Type is the method type incl. the receiver.
+func (pl *Plan) Args() []reflect.Value { return pl.args }
+func (pl *Plan) Type() reflect.Type    { return pl.p.typ }
+
 // Apply runs the prepared step on recv; ok is false when the call panics (derivation-time panic).
 func (pl *Plan) Apply(recv reflect.Value) (out reflect.Value, ok bool) {
 	defer func() {
